@@ -1043,6 +1043,8 @@ class C30(Check):
                 for mix in ("fields", "mixed"):
                     for path in (LIMIT_PATHS if N != 100 else ["default", "kw"]):
                         out.append({"t": "parts", "N": N, "n": n, "mix": mix, "path": path})
+                        if mix == "fields":      # the boundary written as a quoted-string in the Content-Type
+                            out.append({"t": "parts", "N": N, "n": n, "mix": mix, "path": path, "ct": "quoted"})
         for L in LIMIT_H + [10240]:
             for H in range(max(40, L - 6), max(40, L - 6) + 13):
                 for pos in (0, 1):
@@ -1065,6 +1067,8 @@ class C30(Check):
         """(content_type, boundary, body, items, verdict, mcfg kwargs)
         verdict: 'accept' | 'reject' | 'either'."""
         v = dict(MP_DEFAULT)
+        if d.get("ct"):
+            v["ct"] = d["ct"]
         b = v["b"]
         if d["t"] == "parts":
             items = []
